@@ -22,22 +22,36 @@ type trEnv struct {
 // typedConsts: name -> (value, type)
 func (p *pkg) typedConsts() map[string][2]string {
 	out := map[string][2]string{}
-	for _, f := range p.files {
-		for _, d := range f.Decls {
-			gd, ok := d.(*ast.GenDecl)
-			if !ok || gd.Tok != token.CONST {
-				continue
-			}
-			for _, s := range gd.Specs {
-				vs := s.(*ast.ValueSpec)
-				tn := ""
-				if id, ok := vs.Type.(*ast.Ident); ok {
-					tn = id.Name
+	for pass := 0; pass < 4; pass++ { // constants may be defined from constants declared later
+		for _, f := range p.files {
+			for _, d := range f.Decls {
+				gd, ok := d.(*ast.GenDecl)
+				if !ok || gd.Tok != token.CONST {
+					continue
 				}
-				for i, n := range vs.Names {
-					if i < len(vs.Values) {
-						if v, ok := evalInt(vs.Values[i]); ok {
-							out[n.Name] = [2]string{strconv.FormatInt(v, 10), tn}
+				for _, s := range gd.Specs {
+					vs := s.(*ast.ValueSpec)
+					tn := ""
+					if id, ok := vs.Type.(*ast.Ident); ok {
+						tn = id.Name
+					}
+					for i, n := range vs.Names {
+						if i < len(vs.Values) {
+							if v, ok := evalInt(vs.Values[i]); ok {
+								t := tn
+								if t == "" {
+									// `const x = T(…)`: typed by the conversion
+									if ce, ok := vs.Values[i].(*ast.CallExpr); ok {
+										if id, ok := ce.Fun.(*ast.Ident); ok {
+											if _, isType := widths[id.Name]; isType {
+												t = id.Name
+											}
+										}
+									}
+								}
+								out[n.Name] = [2]string{strconv.FormatInt(v, 10), t}
+								constEnv[n.Name] = v
+							}
 						}
 					}
 				}
@@ -64,6 +78,9 @@ func (env *trEnv) tr(e ast.Expr) (string, int, error) {
 	case *ast.Ident:
 		if w, ok := env.params[e.Name]; ok {
 			return e.Name, w, nil
+		}
+		if e.Name == "true" || e.Name == "false" {
+			return e.Name, -1, nil
 		}
 		if c, ok := env.consts[e.Name]; ok {
 			w := widths[c[1]]
@@ -99,11 +116,30 @@ func (env *trEnv) tr(e ast.Expr) (string, int, error) {
 			return "", 0, err
 		}
 		y, wy, err := env.tr(e.Y)
+		if err == nil && wx == 0 && wy == 0 {
+			// both operands are untyped constants: the compiler folds the expression, so do we
+			if v, ok := evalInt(e); ok {
+				return strconv.FormatInt(v, 10), 0, nil
+			}
+		}
 		if err != nil {
 			return "", 0, err
 		}
+		if (e.Op == token.LAND || e.Op == token.LOR) && wx == -1 && wy == -1 {
+			op := "&&"
+			if e.Op == token.LOR {
+				op = "||"
+			}
+			return fmt.Sprintf("(%s %s %s)", x, op, y), -1, nil
+		}
 		switch e.Op {
 		case token.SHL, token.SHR:
+			if wy != 0 {
+				// the shift count must be a compile-time constant
+				if v, ok := evalInt(e.Y); ok {
+					y, wy = strconv.FormatInt(v, 10), 0
+				}
+			}
 			if wy != 0 || wx <= 0 {
 				return "", 0, fmt.Errorf("shift")
 			}
@@ -135,14 +171,53 @@ func (env *trEnv) tr(e ast.Expr) (string, int, error) {
 			return fmt.Sprintf("(%s &&& %s)", x, y), w, nil
 		case token.OR:
 			return fmt.Sprintf("(%s ||| %s)", x, y), w, nil
+		case token.XOR:
+			return fmt.Sprintf("(%s ^^^ %s)", x, y), w, nil
+		case token.AND_NOT:
+			return fmt.Sprintf("(%s &&& ~~~%s)", x, y), w, nil
+		case token.ADD:
+			return fmt.Sprintf("(%s + %s)", x, y), w, nil
+		case token.SUB:
+			return fmt.Sprintf("(%s - %s)", x, y), w, nil
+		case token.MUL:
+			return fmt.Sprintf("(%s * %s)", x, y), w, nil
+		case token.REM:
+			// Go panics on a zero divisor; only constant non-zero divisors are translated
+			if wy != 0 || y == fmt.Sprintf("(0 : BitVec %d)", w) {
+				return "", 0, fmt.Errorf("remainder by a non-constant")
+			}
+			return fmt.Sprintf("(%s %% %s)", x, y), w, nil
+		case token.QUO:
+			if wy != 0 || y == fmt.Sprintf("(0 : BitVec %d)", w) {
+				return "", 0, fmt.Errorf("division by a non-constant")
+			}
+			return fmt.Sprintf("(%s / %s)", x, y), w, nil
 		case token.EQL:
 			return fmt.Sprintf("(%s == %s)", x, y), -1, nil
+		case token.NEQ:
+			return fmt.Sprintf("(%s != %s)", x, y), -1, nil
 		case token.LSS:
 			return fmt.Sprintf("(BitVec.ult %s %s)", x, y), -1, nil
 		case token.GTR:
 			return fmt.Sprintf("(BitVec.ult %s %s)", y, x), -1, nil
+		case token.LEQ:
+			return fmt.Sprintf("(BitVec.ule %s %s)", x, y), -1, nil
+		case token.GEQ:
+			return fmt.Sprintf("(BitVec.ule %s %s)", y, x), -1, nil
 		}
 		return "", 0, fmt.Errorf("operator %s", e.Op)
+	case *ast.UnaryExpr:
+		x, wx, err := env.tr(e.X)
+		if err != nil {
+			return "", 0, err
+		}
+		switch {
+		case e.Op == token.NOT && wx == -1:
+			return fmt.Sprintf("(!%s)", x), -1, nil
+		case e.Op == token.XOR && wx > 0:
+			return fmt.Sprintf("(~~~%s)", x), wx, nil
+		}
+		return "", 0, fmt.Errorf("unary %s", e.Op)
 	}
 	return "", 0, fmt.Errorf("expression %T", e)
 }
@@ -198,68 +273,275 @@ func translateFunc(p *pkg, consts map[string][2]string, recv, name, leanName str
 		rw = w
 		leanRT = fmt.Sprintf("BitVec %d", w)
 	}
-	var lets []string
-	var body string
-	for i, st := range fd.Body.List {
-		switch st := st.(type) {
+	body, err := env.stmts(fd.Body.List, rw, 1)
+	if err != nil {
+		return fail(err)
+	}
+	var sb strings.Builder
+	fmt.Fprintf(&sb, "def %s %s : %s :=\n%s\n\n", leanName, strings.Join(binders, " "), leanRT, body)
+	return sb.String()
+}
+
+// stmts translates a statement list that ends by returning a value of width rw (-1: bool) into a
+// Lean expression: assignments become `let`, conditionals `if … then … else …`, a switch a chain of
+// conditionals.  Loops, calls and anything else are not translated.
+func (env *trEnv) stmts(list []ast.Stmt, rw int, depth int) (string, error) {
+	ind := strings.Repeat("  ", depth)
+	if len(list) == 0 {
+		return "", fmt.Errorf("falls off the end")
+	}
+	typed := func(x string, wx, want int) (string, error) {
+		if wx == 0 && want > 0 {
+			return fmt.Sprintf("(%s : BitVec %d)", x, want), nil
+		}
+		if wx != want {
+			return "", fmt.Errorf("width %d where %d is expected", wx, want)
+		}
+		return x, nil
+	}
+	// endsInReturn: every path through the block returns
+	var endsInReturn func(b []ast.Stmt) bool
+	endsInReturn = func(b []ast.Stmt) bool {
+		if len(b) == 0 {
+			return false
+		}
+		switch l := b[len(b)-1].(type) {
+		case *ast.ReturnStmt:
+			return true
 		case *ast.IfStmt:
-			if st.Else != nil || st.Init != nil || len(st.Body.List) != 1 {
-				return fail(fmt.Errorf("if shape"))
+			if l.Else == nil {
+				return false
 			}
-			as, ok := st.Body.List[0].(*ast.AssignStmt)
+			eb, ok := l.Else.(*ast.BlockStmt)
+			if !ok {
+				return endsInReturn([]ast.Stmt{l.Else}) && endsInReturn(l.Body.List)
+			}
+			return endsInReturn(l.Body.List) && endsInReturn(eb.List)
+		}
+		return false
+	}
+	st, rest := list[0], list[1:]
+	switch st := st.(type) {
+	case *ast.ReturnStmt:
+		if len(st.Results) != 1 {
+			return "", fmt.Errorf("return shape")
+		}
+		x, wx, err := env.tr(st.Results[0])
+		if err != nil {
+			return "", err
+		}
+		x, err = typed(x, wx, rw)
+		if err != nil {
+			return "", err
+		}
+		return ind + x, nil
+	case *ast.AssignStmt:
+		if len(st.Lhs) != 1 || len(st.Rhs) != 1 {
+			return "", fmt.Errorf("assignment shape")
+		}
+		id, ok := st.Lhs[0].(*ast.Ident)
+		if !ok {
+			return "", fmt.Errorf("assignment target")
+		}
+		rhs := st.Rhs[0]
+		switch st.Tok {
+		case token.ASSIGN, token.DEFINE:
+		case token.OR_ASSIGN, token.AND_ASSIGN, token.ADD_ASSIGN, token.SUB_ASSIGN, token.SHL_ASSIGN, token.SHR_ASSIGN:
+			op := map[token.Token]token.Token{token.OR_ASSIGN: token.OR, token.AND_ASSIGN: token.AND, token.ADD_ASSIGN: token.ADD,
+				token.SUB_ASSIGN: token.SUB, token.SHL_ASSIGN: token.SHL, token.SHR_ASSIGN: token.SHR}[st.Tok]
+			rhs = &ast.BinaryExpr{X: id, Op: op, Y: rhs}
+		default:
+			return "", fmt.Errorf("assignment operator %s", st.Tok)
+		}
+		x, wx, err := env.tr(rhs)
+		if err != nil {
+			return "", err
+		}
+		if w, known := env.params[id.Name]; known {
+			if x, err = typed(x, wx, w); err != nil {
+				return "", err
+			}
+		} else {
+			if st.Tok != token.DEFINE {
+				return "", fmt.Errorf("assignment to unknown %s", id.Name)
+			}
+			if wx == 0 {
+				return "", fmt.Errorf("untyped local %s", id.Name)
+			}
+			env.params[id.Name] = wx
+		}
+		tail, err := env.stmts(rest, rw, depth)
+		if err != nil {
+			return "", err
+		}
+		return fmt.Sprintf("%slet %s := %s\n%s", ind, id.Name, x, tail), nil
+	case *ast.DeclStmt:
+		gd, ok := st.Decl.(*ast.GenDecl)
+		if !ok || len(gd.Specs) != 1 {
+			return "", fmt.Errorf("declaration")
+		}
+		vs, ok := gd.Specs[0].(*ast.ValueSpec)
+		if !ok || len(vs.Names) != 1 || len(vs.Values) != 1 {
+			return "", fmt.Errorf("declaration shape")
+		}
+		x, wx, err := env.tr(vs.Values[0])
+		if err != nil {
+			return "", err
+		}
+		if vs.Type != nil {
+			w, ok := widths[typeString(vs.Type)]
+			if !ok {
+				return "", fmt.Errorf("declared type %s", typeString(vs.Type))
+			}
+			if x, err = typed(x, wx, w); err != nil {
+				return "", err
+			}
+			wx = w
+		}
+		if gd.Tok == token.CONST && wx == 0 {
+			// an untyped local constant: substitute its value
+			if env.consts == nil {
+				env.consts = map[string][2]string{}
+			}
+			env.consts[vs.Names[0].Name] = [2]string{x, ""}
+			return env.stmts(rest, rw, depth)
+		}
+		if wx == 0 {
+			return "", fmt.Errorf("untyped local %s", vs.Names[0].Name)
+		}
+		env.params[vs.Names[0].Name] = wx
+		tail, err := env.stmts(rest, rw, depth)
+		if err != nil {
+			return "", err
+		}
+		return fmt.Sprintf("%slet %s := %s\n%s", ind, vs.Names[0].Name, x, tail), nil
+	case *ast.IfStmt:
+		if st.Init != nil {
+			return "", fmt.Errorf("if with initialiser")
+		}
+		c, wc, err := env.tr(st.Cond)
+		if err != nil || wc != -1 {
+			return "", fmt.Errorf("if condition: %v", err)
+		}
+		var elseList []ast.Stmt
+		switch e := st.Else.(type) {
+		case nil:
+		case *ast.BlockStmt:
+			elseList = e.List
+		default:
+			elseList = []ast.Stmt{e}
+		}
+		if endsInReturn(st.Body.List) {
+			// the code after the conditional is the (rest of the) else branch
+			a, err := env.stmts(st.Body.List, rw, depth+1)
+			if err != nil {
+				return "", err
+			}
+			b, err := env.stmts(append(append([]ast.Stmt{}, elseList...), rest...), rw, depth+1)
+			if err != nil {
+				return "", err
+			}
+			return fmt.Sprintf("%sif %s then\n%s\n%selse\n%s", ind, c, a, ind, b), nil
+		}
+		// a conditional update of one variable (both branches, or one branch, assign it)
+		one := func(b []ast.Stmt) (string, ast.Expr, bool) {
+			if len(b) != 1 {
+				return "", nil, false
+			}
+			as, ok := b[0].(*ast.AssignStmt)
 			if !ok || as.Tok != token.ASSIGN || len(as.Lhs) != 1 || len(as.Rhs) != 1 {
-				return fail(fmt.Errorf("if body"))
+				return "", nil, false
 			}
 			id, ok := as.Lhs[0].(*ast.Ident)
 			if !ok {
-				return fail(fmt.Errorf("if lhs"))
+				return "", nil, false
 			}
-			w, ok := env.params[id.Name]
-			if !ok {
-				return fail(fmt.Errorf("if assigns non-parameter"))
-			}
-			c, wc, err := env.tr(st.Cond)
-			if err != nil || wc != -1 {
-				return fail(fmt.Errorf("if cond: %v", err))
-			}
-			v, wv, err := env.tr(as.Rhs[0])
-			if err != nil {
-				return fail(err)
-			}
-			if wv == 0 {
-				v = fmt.Sprintf("(%s : BitVec %d)", v, w)
-			}
-			lets = append(lets, fmt.Sprintf("  let %s := if %s then %s else %s", id.Name, c, v, id.Name))
-		case *ast.ReturnStmt:
-			if i != len(fd.Body.List)-1 || len(st.Results) != 1 {
-				return fail(fmt.Errorf("return shape"))
-			}
-			x, wx, err := env.tr(st.Results[0])
-			if err != nil {
-				return fail(err)
-			}
-			if wx == 0 && rw > 0 {
-				x = fmt.Sprintf("(%s : BitVec %d)", x, rw)
-				wx = rw
-			}
-			if wx != rw {
-				return fail(fmt.Errorf("result width %d vs %d", wx, rw))
-			}
-			body = x
-		default:
-			return fail(fmt.Errorf("statement %T", st))
+			return id.Name, as.Rhs[0], true
 		}
+		name, thenE, ok := one(st.Body.List)
+		if !ok {
+			return "", fmt.Errorf("if body")
+		}
+		w, known := env.params[name]
+		if !known {
+			return "", fmt.Errorf("if assigns unknown %s", name)
+		}
+		tv, wtv, err := env.tr(thenE)
+		if err != nil {
+			return "", err
+		}
+		if tv, err = typed(tv, wtv, w); err != nil {
+			return "", err
+		}
+		ev := name
+		if len(elseList) > 0 {
+			n2, elseE, ok := one(elseList)
+			if !ok || n2 != name {
+				return "", fmt.Errorf("else body")
+			}
+			x, wx, err := env.tr(elseE)
+			if err != nil {
+				return "", err
+			}
+			if ev, err = typed(x, wx, w); err != nil {
+				return "", err
+			}
+		}
+		tail, err := env.stmts(rest, rw, depth)
+		if err != nil {
+			return "", err
+		}
+		return fmt.Sprintf("%slet %s := if %s then %s else %s\n%s", ind, name, c, tv, ev, tail), nil
+	case *ast.SwitchStmt:
+		if st.Init != nil {
+			return "", fmt.Errorf("switch with initialiser")
+		}
+		// rewrite as an if / else-if chain and translate that
+		var chain ast.Stmt
+		var deflt []ast.Stmt
+		var clauses []*ast.CaseClause
+		for _, c := range st.Body.List {
+			cc := c.(*ast.CaseClause)
+			for _, b := range cc.Body {
+				if br, ok := b.(*ast.BranchStmt); ok && br.Tok == token.FALLTHROUGH {
+					return "", fmt.Errorf("fallthrough")
+				}
+			}
+			if cc.List == nil {
+				deflt = cc.Body
+			} else {
+				clauses = append(clauses, cc)
+			}
+		}
+		var tail ast.Stmt
+		if deflt != nil {
+			tail = &ast.BlockStmt{List: deflt}
+		}
+		for i := len(clauses) - 1; i >= 0; i-- {
+			cc := clauses[i]
+			var cond ast.Expr
+			for _, e := range cc.List {
+				var one ast.Expr = e
+				if st.Tag != nil {
+					one = &ast.BinaryExpr{X: st.Tag, Op: token.EQL, Y: e}
+				}
+				if cond == nil {
+					cond = one
+				} else {
+					cond = &ast.BinaryExpr{X: cond, Op: token.LOR, Y: one}
+				}
+			}
+			chain = &ast.IfStmt{Cond: cond, Body: &ast.BlockStmt{List: cc.Body}, Else: tail}
+			tail = chain
+		}
+		if chain == nil {
+			return env.stmts(append(append([]ast.Stmt{}, deflt...), rest...), rw, depth)
+		}
+		return env.stmts(append([]ast.Stmt{chain}, rest...), rw, depth)
+	case *ast.BlockStmt:
+		return env.stmts(append(append([]ast.Stmt{}, st.List...), rest...), rw, depth)
 	}
-	if body == "" {
-		return fail(fmt.Errorf("no return"))
-	}
-	var sb strings.Builder
-	fmt.Fprintf(&sb, "def %s %s : %s :=\n", leanName, strings.Join(binders, " "), leanRT)
-	for _, l := range lets {
-		sb.WriteString(l + "\n")
-	}
-	fmt.Fprintf(&sb, "  %s\n\n", body)
-	return sb.String()
+	return "", fmt.Errorf("statement %T", st)
 }
 
 func genHelpers(cemi *pkg) string {
